@@ -1,6 +1,7 @@
 (** CpSatProofs.v — the encoding is sound and complete for feasible complete
     schedules, the rebuild never fails on a satisfying assignment (repaired
-    sort key), the constraint set is satisfiable, lower bounds, optimality
+    sort key), the constraint set is satisfiable (also for an instance without
+    operations, where [AddMaxEquality] is not emitted), lower bounds, optimality
     under the solver contract, soundness of the brute force. *)
 From JSL Require Import Base Instance Dstate Filters World Feasible ListFacts DispatchFun Inv Run
   CpSat CpSatSpec CpSatLemmas.
@@ -178,11 +179,14 @@ Proof.
   - (* makespan *)
     unfold makespan. change (fold_right Z.max 0) with maxZ0.
     rewrite (maxZ0_perm _ _ (Permutation_map (s_end I) (all_sops_perm KeyStartEnd I sigma Hnf))).
+    destruct (nil_dec (all_keys I)) as [Hnil|Hne].
+    { (* no operation: nothing scheduled, and the horizon of the variable is 0 *)
+      rewrite (sat_mk_no_ops I sigma Hd Hnil), Hnil. reflexivity. }
     apply maxZ0_eq.
     + intros e He. apply in_map_iff in He. destruct He as (x & <- & Hx).
       apply in_map_iff in Hx. destruct Hx as (k & <- & Hk).
       rewrite (s_end_sop_of I sigma _ Hc Hk). apply (sd_max_le _ _ Hc); exact Hk.
-    + destruct (sd_max_ex _ _ Hc) as (k & Hk & ->). rewrite <- (s_end_sop_of I sigma _ Hc Hk).
+    + destruct (sd_max_ex _ _ Hc Hne) as (k & Hk & ->). rewrite <- (s_end_sop_of I sigma _ Hc Hk).
       apply in_map. apply in_map. exact Hk.
     + apply (sat_domain_mk I sigma Hd).
 Qed.
@@ -348,11 +352,11 @@ Proof.
 Qed.
 
 Theorem cp_complete I (S : schedule) :
-  valid I -> nonflex I -> (0 < num_ops I)%nat ->
+  valid I -> nonflex I ->
   feasible I S -> complete I S -> makespan I S <= total_duration I ->
   sat (sigma_of I S) (cp_encode I) /\ objective (sigma_of I S) (cp_encode I) = makespan I S.
 Proof.
-  intros Hv Hnf Hpos Hf Hc Hmk.
+  intros Hv Hnf Hf Hc Hmk.
   assert (Hbounds : forall x, In x (all_sops S) ->
             0 <= s_start x /\ s_start x <= s_end I x /\ s_end I x <= total_duration I).
   { intros x Hx. pose proof (f_nonneg _ _ Hf x Hx). pose proof (s_end_ge_start I S x Hv Hf Hx).
@@ -397,10 +401,11 @@ Proof.
       * exfalso. apply Hne. rewrite <- Hkx, <- Hky, E. reflexivity.
     + intros k Hk. destruct (find_sop_some I S k Hc Hk) as (x & Hfx & Hx & _).
       rewrite (sigma_of_evar I S k x Hk Hfx), sigma_of_mk. apply s_end_le_makespan; exact Hx.
-    + (* the maximum is attained *)
+    + (* the maximum is attained (when there is an operation) *)
+      intros Hne0.
       assert (Hne : map (s_end I) (all_sops S) <> []).
       { destruct (all_keys I) as [|k0 t] eqn:Ek.
-        - pose proof (all_keys_length I) as Hl. rewrite Ek in Hl. simpl in Hl. lia.
+        - exfalso. apply Hne0. reflexivity.
         - assert (Hk0 : In k0 (all_keys I)) by (rewrite Ek; left; reflexivity).
           destruct (find_sop_some I S k0 Hc Hk0) as (x & _ & Hx & _).
           intros Hnil. apply (in_map (s_end I)) in Hx. rewrite Hnil in Hx. destruct Hx. }
@@ -511,9 +516,9 @@ Proof.
 Qed.
 
 Theorem cp_satisfiable I :
-  valid I -> nonflex I -> (0 < num_ops I)%nat -> sat (sigma_seq I) (cp_encode I).
+  valid I -> nonflex I -> sat (sigma_seq I) (cp_encode I).
 Proof.
-  intros Hv Hnf Hpos. pose proof (durs_nonneg I Hv) as Hnn.
+  intros Hv Hnf. pose proof (durs_nonneg I Hv) as Hnn.
   assert (Htot : sumZ (durs I) = total_duration I) by apply sumZ_durations.
   assert (H0 : forall v, 0 <= sigma_seq0 I v <= total_duration I).
   { intros v. unfold sigma_seq0. rewrite <- Htot. destruct (Nat.even v).
@@ -542,21 +547,13 @@ Proof.
     + intros k Hk. unfold sigma_seq at 2. rewrite Nat.eqb_refl.
       rewrite (sigma_seq_evar I k Hk), <- (sigma_seq0_evar I k Hk).
       apply maxZ0_ge. apply (in_map (fun k0 => sigma_seq0 I (evar I k0))). exact Hk.
-    + assert (Hatt : In (sigma_seq I (mkvar I)) (map (fun k => sigma_seq0 I (evar I k)) (all_keys I))).
+    + intros Hne0.
+      assert (Hatt : In (sigma_seq I (mkvar I)) (map (fun k => sigma_seq0 I (evar I k)) (all_keys I))).
       { unfold sigma_seq. rewrite Nat.eqb_refl. apply maxZ0_attained.
-        - intros Hnil. apply map_eq_nil in Hnil. pose proof (all_keys_length I) as Hl.
-          rewrite Hnil in Hl. simpl in Hl. lia.
+        - intros Hnil. apply map_eq_nil in Hnil. apply Hne0. exact Hnil.
         - intros x Hx. apply in_map_iff in Hx. destruct Hx as (k & <- & _). apply H0. }
       apply in_map_iff in Hatt. destruct Hatt as (k & Hk & Hin). exists k. split; [exact Hin|].
       rewrite <- Hk. rewrite (sigma_seq_evar I k Hin), (sigma_seq0_evar I k Hin). reflexivity.
-Qed.
-
-(** An instance without operations: [AddMaxEquality] over no expression
-    cannot be satisfied. *)
-Lemma cp_unsat_empty I sigma : num_ops I = 0%nat -> ~ sat sigma (cp_encode I).
-Proof.
-  intros Hn [_ Hc]. apply sat_cstrs_iff in Hc. destruct (sd_max_ex _ _ Hc) as (k & Hk & _).
-  pose proof (all_keys_length I) as Hl. rewrite Hn in Hl. destruct (all_keys I); [destruct Hk|discriminate].
 Qed.
 
 (** ** Lower bounds for every feasible complete schedule *)
@@ -694,23 +691,89 @@ Proof.
   exists S. split; [exact HS|]. split; [exact Hf|]. split; [exact Hc|]. split; [exact Hmk|]. split.
   - exists S. auto.
   - intros S' Hf' Hc'. rewrite Hmk.
-    assert (Hpos : (0 < num_ops I)%nat).
-    { destruct (num_ops I) eqn:E; [|lia]. exfalso. apply (cp_unsat_empty I sigma E Hsat). }
     destruct (Z.le_gt_cases (makespan I S') (total_duration I)) as [Hle|Hgt].
-    + destruct (cp_complete I S' Hv Hnf Hpos Hf' Hc' Hle) as [Hsat' Hobj].
+    + destruct (cp_complete I S' Hv Hnf Hf' Hc' Hle) as [Hsat' Hobj].
       specialize (Hmin _ Hsat'). rewrite Hobj in Hmin. unfold objective in Hmin. rewrite encode_obj in Hmin. exact Hmin.
     + destruct Hsat as [Hd _]. pose proof (sat_domain_mk I sigma Hd). lia.
 Qed.
 
 (** The horizon does not cut off the optimum. *)
 Theorem cp_horizon I c :
-  valid I -> nonflex I -> (0 < num_ops I)%nat -> is_opt I c -> c <= total_duration I.
+  valid I -> nonflex I -> is_opt I c -> c <= total_duration I.
 Proof.
-  intros Hv Hnf Hpos [_ Hmin].
-  pose proof (cp_satisfiable I Hv Hnf Hpos) as Hsat.
+  intros Hv Hnf [_ Hmin].
+  pose proof (cp_satisfiable I Hv Hnf) as Hsat.
   destruct (cp_reconstruct_total I _ Hv Hnf Hsat) as [S HS].
   destruct (cp_sound I _ S Hv Hnf Hsat HS) as (Hf & Hc & Hmk).
   specialize (Hmin S Hf Hc). destruct Hsat as [Hd _]. pose proof (sat_domain_mk I _ Hd). lia.
+Qed.
+
+(** ** An instance without operations ([JobShopInstance([])], [[[]]], ...):
+    the model has the makespan variable with domain [0, 0] and no constraint;
+    every satisfying assignment rebuilds into the schedule without machine
+    rows, whose makespan 0 is the optimum. *)
+
+Lemma no_ops_get_op I j p : num_ops I = 0%nat -> get_op I j p = None.
+Proof.
+  intros Hn. destruct (get_op I j p) as [o|] eqn:E; [|reflexivity].
+  apply all_keys_In in E. apply all_keys_nil_iff in Hn. rewrite Hn in E. destruct E.
+Qed.
+
+Lemma no_ops_valid I : num_ops I = 0%nat -> valid I.
+Proof. intros Hn j p o Ho. rewrite (no_ops_get_op I j p Hn) in Ho. discriminate. Qed.
+
+Lemma no_ops_nonflex I : num_ops I = 0%nat -> nonflex I.
+Proof. intros Hn j p o Ho. rewrite (no_ops_get_op I j p Hn) in Ho. discriminate. Qed.
+
+Lemma no_ops_num_machines I : num_ops I = 0%nat -> num_machines I = 0%nat.
+Proof.
+  unfold num_ops, num_machines. intros Hn. apply length_zero_iff_nil in Hn. rewrite Hn. reflexivity.
+Qed.
+
+Lemma no_ops_complete I (S : schedule) : num_ops I = 0%nat -> complete I S.
+Proof. intros Hn j p o Ho. rewrite (no_ops_get_op I j p Hn) in Ho. discriminate. Qed.
+
+Lemma feasible_nil I : feasible I [].
+Proof.
+  constructor.
+  - intros x [].
+  - intros m row x Hn. destruct m; discriminate.
+  - constructor.
+  - intros x y [].
+  - intros x p [].
+  - intros row [].
+  - intros x [].
+Qed.
+
+Lemma no_ops_is_opt I : num_ops I = 0%nat -> is_opt I 0.
+Proof.
+  intros Hn. split.
+  - exists []. split; [apply feasible_nil|]. split; [apply no_ops_complete; exact Hn|reflexivity].
+  - intros S _ _. apply makespan_nonneg.
+Qed.
+
+Lemma no_ops_reconstruct I sigma : num_ops I = 0%nat -> reconstruct I sigma = inl [].
+Proof.
+  intros Hn. unfold reconstruct, reconstruct_gen, unsorted_rows.
+  rewrite (no_ops_num_machines I Hn). reflexivity.
+Qed.
+
+Theorem cp_no_ops I :
+  num_ops I = 0%nat ->
+  sat (sigma_seq I) (cp_encode I) /\
+  (forall sigma, sat sigma (cp_encode I) ->
+     sigma (mkvar I) = 0 /\
+     exists S, reconstruct I sigma = inl S /\ S = [] /\
+               feasible I S /\ complete I S /\ makespan I S = 0) /\
+  is_opt I 0.
+Proof.
+  intros Hn. pose proof (no_ops_valid I Hn) as Hv. pose proof (no_ops_nonflex I Hn) as Hnf.
+  split; [apply cp_satisfiable; assumption|]. split; [|apply no_ops_is_opt; exact Hn].
+  intros sigma Hsat.
+  assert (Hmk : sigma (mkvar I) = 0).
+  { destruct Hsat as [Hd _]. apply (sat_mk_no_ops I sigma Hd). apply all_keys_nil_iff; exact Hn. }
+  split; [exact Hmk|]. exists []. split; [apply no_ops_reconstruct; exact Hn|]. split; [reflexivity|].
+  split; [apply feasible_nil|]. split; [apply no_ops_complete; exact Hn|reflexivity].
 Qed.
 
 (** ** Brute force over dispatch histories: what it returns is the makespan
@@ -804,6 +867,19 @@ Proof.
     destruct (cp_reconstruct_total I sigma Hv Hnf Hsat) as [S HS];
     unfold reconstruct in HS; rewrite HS; exists S; (split; [reflexivity|]);
     apply (cp_sound I sigma S Hv Hnf Hsat); exact HS.
+Qed.
+
+(** An instance without operations, status OPTIMAL: the empty schedule,
+    "optimal", makespan 0. *)
+Lemma solve_no_ops I prev sigma :
+  num_ops I = 0%nat -> sat sigma (cp_encode I) ->
+  snd (solve I prev StOptimal sigma) = inl ([], (1, 0)).
+Proof.
+  intros Hn Hsat. destruct (cp_no_ops I Hn) as (_ & Hall & _). destruct (Hall sigma Hsat) as [Hmk _].
+  unfold solve, solve_gen, initialize. rewrite (nonflex_no_exn I (no_ops_nonflex I Hn)).
+  rewrite build_mk, build_keys.
+  change (reconstruct_gen KeyStartEnd I (all_keys I) sigma) with (reconstruct I sigma).
+  rewrite (no_ops_reconstruct I sigma Hn), Hmk. reflexivity.
 Qed.
 
 (** Boolean witnesses for the concrete examples. *)
